@@ -217,6 +217,8 @@ def run_check(pid, tier, runs, budget_s, workers):
     deadline = time.time() + budget_s
     agg = run_batch(pid, base, tier, 0, runs, deadline, workers, HASHSEEDS, samples=3, on_rec=on_rec)
     t_explore = time.time() - t0
+    if os.environ.get("VERIF_DEBUG"):
+        print(f"[debug] exploration done after {t_explore:.1f}s, violations={len(agg['violations'])}", flush=True)
 
     problems = []
     if agg["harness"]:
@@ -249,6 +251,13 @@ def run_check(pid, tier, runs, budget_s, workers):
 
     # ---- violations: shrink, confirm, classify
     known = core.load_known_findings()
+    try:
+        # shrinking and confirming replays run in this process: same CPU for its baton-passing threads
+        cpus = sorted(os.sched_getaffinity(0))
+        os.sched_setaffinity(0, {cpus[-1]})
+    except (AttributeError, OSError):
+        pass
+    shrink_deadline = time.monotonic() + (30.0 if tier == "quick" else 300.0)
     reported = []
     known_lines = []
     shrink_stats = []
@@ -263,9 +272,13 @@ def run_check(pid, tier, runs, budget_s, workers):
         if trace is None:
             problems.append(f"violation without trace at index {rec['i']}")
             continue
+        if len(seen_sigs) > 4:
+            break           # enough distinct signatures for one report
         sh = core.Shrinker(prop, trace, sig, budget=300 if tier == "quick" else 1500,
-                           deadline=time.monotonic() + (25.0 if tier == "quick" else 240.0))
+                           deadline=min(shrink_deadline, time.monotonic() + (15.0 if tier == "quick" else 120.0)))
         best = sh.run()
+        if os.environ.get("VERIF_DEBUG"):
+            print(f"[debug] shrink {sig} tried={sh.tried} kept={sh.kept} t={time.time() - t0:.1f}s", flush=True)
         conf1 = core.run_in_child(lambda t: core.replay_trace(prop, t), best)
         conf2 = core.run_in_child(lambda t: core.replay_trace(prop, t), best)
         shrink_stats.append({"sig": list(sig), "tried": sh.tried, "kept": sh.kept,
